@@ -122,11 +122,14 @@ def run_agm(pid, tier, seed, fams, mutants, rule, assumptions, sample=None, repl
             d["micro"] = (1 + seed * 100003 + 31 * i + r) if (micro and r % 2 == 1 and len(c["prog"]["threads"]) > 1) else 0
             # every second multi-thread case: all threads and nesting levels go through ONE shared grad / make_vjp / make_jvp object
             d["shared_ops"] = bool(micro and len(c["prog"]["threads"]) > 1 and i % 2 == 1)
+            # every third multi-thread case: thread 1 runs in the worker's only thread, the others are BORN when the schedule first
+            # names them (thread 1 may have traces open then) and are joined as soon as they are done (sched.py, lifecycle mode)
+            d["lifecycle"] = bool(micro and len(c["prog"]["threads"]) > 1 and i % 3 == 2)
             cases.append(d)
     for i, c in enumerate(cases):
         c["id"] = i + 1
     # replay (the exported model result / den stay on this side; the worker gets id + prog + variant)
-    work = [{"id": c["id"], "prog": c["prog"], "variant": c["variant"], "micro": c.get("micro", 0), "shared_ops": c.get("shared_ops", False),
+    work = [{"id": c["id"], "prog": c["prog"], "variant": c["variant"], "micro": c.get("micro", 0), "shared_ops": c.get("shared_ops", False), "lifecycle": c.get("lifecycle", False),
              "schedule": c["sched"] if len(c["prog"]["threads"]) > 1 else []} for c in cases]
     traces, files = vlib.parallel_replay("agm_replay.py", work, nproc=14, tag="agm")
     accepted, g2, d2, _w, inv = vlib.parallel_validate("TraceAGM", files, cfg=TRACE_CFG, njvm=14)
